@@ -19,6 +19,7 @@
 import RotoV.Lemmas.ListRefine
 import RotoV.Lemmas.ListNested
 import RotoV.Lemmas.ListFor
+import RotoV.Lemmas.ListSelfEq
 
 namespace RotoV.C15
 open RotoV RotoV.ListM
@@ -42,6 +43,22 @@ theorem refines_vec (sz n : Nat) (ops : List Op)
     List.zipWith eraseCap ops (run sz (St.init n) ops) = specRun (Spec.init n) ops ∧
       Rel (runSt sz (St.init n) ops) (specRunSt (Spec.init n) ops) :=
   run_sim ops (Inv_init sz n) (Rel_init n) hp hq
+
+/-- T1 without the second hypothesis: a history that never brings a value into
+    a list that is not equal to itself (no NaN among the arguments of `from` /
+    `push` — in particular every history over plain element types) refines the
+    shared vectors in full: no vector ever holds such an element (`SelfEq` is
+    kept by every operation of the specification), so the reflexive shortcut
+    never shows. -/
+theorem refines_vec_no_nan (sz n : Nat) (ops : List Op)
+    (hp : ∀ o ∈ run sz (St.init n) ops, o ≠ .fault .panic)
+    (hv : ∀ op ∈ ops, ∀ v ∈ opVals op, elemEq v v = true) :
+    List.zipWith eraseCap ops (run sz (St.init n) ops) = specRun (Spec.init n) ops ∧
+      Rel (runSt sz (St.init n) ops) (specRunSt (Spec.init n) ops) :=
+  refines_vec sz n ops hp (noRefl_of_selfEq ops (SelfEq_init n) hv)
+
+example : ∀ op ∈ [Op.fromVec 0 [1, f64Base + 0x8000000000000000], .push 0 7, .eq 0 0 false],
+    ∀ v ∈ opVals op, elemEq v v = true := by decide
 
 /-- `[0.0] == [-0.0]`, `[NaN] != [NaN]` (two lists), `contains` / `index` of `-0.0`
     in `[1.5, 0.0]`: the element `==`, not the bytes -/
